@@ -51,7 +51,7 @@ func StdGenesis() *ct.GenesisState {
 func StdEngine(rc *RunCtx, double, fold bool, mut func(gs *ct.GenesisState, cfg *chain.Config)) (*Engine, error) {
 	gs := StdGenesis()
 	f, allow := DefaultFunding(rc.Rand, double)
-	cfg := chain.Config{Genesis: gs, Funded: f, Allowance: allow, Double: double, Fold: fold}
+	cfg := chain.Config{Genesis: gs, Funded: f, Allowance: allow, Double: double, Fold: fold, FundedOther: LookalikeFunding()}
 	if mut != nil {
 		mut(gs, &cfg)
 	}
@@ -74,4 +74,14 @@ func NearModuleRecipient(tag byte) []byte {
 		b[j] = tag + byte(j)
 	}
 	return b
+}
+
+// LookalikeFunding: a few accounts also hold coins whose denom differs from the minting denom only in letter case
+// (anyone can be sent such coins on a chain where another module mints them); they are never the minting denom.
+func LookalikeFunding() map[string]map[string]*big.Int {
+	return map[string]map[string]*big.Int{
+		"UUSDC": {Acct(RichIx): big.NewInt(1_000_000_000), Acct(UserIx): big.NewInt(5_000), Acct(0): big.NewInt(700)},
+		"uUsdc": {Acct(RichIx): big.NewInt(1_000_000), Acct(1): big.NewInt(900)},
+		"Uusdc": {Acct(OtherIx): big.NewInt(123_456)},
+	}
 }
